@@ -310,6 +310,8 @@ package eval
 //@ ghost (declare-fun pre (Int) Int)
 //@ ghost (declare-fun vis (Int) Bool)
 //@ ghost (declare-fun idxOf (Int) Int)
+//@ ghost (declare-fun dep (Int) Int)
+//@ ghost (declare-fun ext (Int) Int)
 
 //@ macro (KIND $p) (mod (fld $p flag) 8)
 //@ macro (HASSC $p) (not (= (mod (div (fld $p flag) 8) 4) 0))
@@ -321,14 +323,20 @@ package eval
 //@       (let ((k (- j o)) (p (select (arr (fld $e nodes)) j)))
 //@       (let ((kind (KIND p)) (ot (fld p osTop)) (sc (fld p scIdx)) (cc (fld p childCnt)))
 //@         (and (not (= p 0)) (= (idxOf p) k) (<= -1 ot) (< ot m)
-//@           (=> (= kind 2) (is.string (fld p value)))
+//@           (=> (or (= kind 2) (= kind 3) (= kind 4)) (is.string (fld p value)))
+//@           (>= (dep k) 0) (>= (ext k) k) (=> (or (= kind 1) (= kind 2) (= kind 3)) (= (ext k) k))
 //@           (=> (vis k) (and (<= 0 (pre k)) (<= (pre k) m)
 //@             (=> (or (= kind 1) (= kind 2)) (and (= (pre k) ot) (<= 0 ot) (SUCC $e n (+ k 1) (+ ot 1))))
 //@             (=> (= kind 3) (and (<= 0 cc) (<= cc (pre k)) (= (- (pre k) cc) ot) (<= 0 ot) (not (= (fld p operator) 0)) (SUCC $e n (+ k 1) (+ ot 1))))
-//@             (=> (= kind 4) (and (< (+ k 2) n) (= (pre k) ot) (<= 0 ot) (not (= (fld p operator) 0)) (SUCC $e n (+ k 3) (+ ot 1))))
+//@             (=> (= kind 4) (and (< (+ k 2) n) (= (pre k) ot) (<= 0 ot) (not (= (fld p operator) 0)) (SUCC $e n (+ k 3) (+ ot 1)) (= (ext k) (+ k 2)) (not (vis (+ k 1))) (not (vis (+ k 2)))
+//@                  (or (= (KIND (NODEAT $e (+ k 1))) 1) (= (KIND (NODEAT $e (+ k 1))) 2)) (or (= (KIND (NODEAT $e (+ k 2))) 1) (= (KIND (NODEAT $e (+ k 2))) 2))))
 //@             (=> (= kind 5) (and (>= (pre k) 1) (not (= (fld p operator) 0))
 //@                  (< (+ k 1) n) (vis (+ k 1)) (= (pre (+ k 1)) (- (pre k) 1))
-//@                  (< k sc) (< sc n) (SUCC $e n (+ sc 1) (+ ot 1))))
+//@                  (< k sc) (< sc n) (SUCC $e n (+ sc 1) (+ ot 1))
+//@                  (let ((z (fld (NODEAT $e sc) scIdx)))
+//@                    (=> (= (KIND (NODEAT $e sc)) 5)
+//@                        (and (<= 0 z) (< z n) (= (ext k) z) (<= 0 (fld (NODEAT $e z) osTop)) (< (fld (NODEAT $e z) osTop) m)
+//@                             (SUCC $e n (+ z 1) (+ (fld (NODEAT $e z) osTop) 1)))))))
 //@             (=> (or (= kind 0) (= kind 6) (= kind 7)) (SUCC $e n (+ k 1) (pre k)))
 //@             (=> (and (<= 1 kind) (<= kind 4) (HASSC p))
 //@                 (or (= sc -1) (and (< (ite (= kind 4) (+ k 2) k) sc) (< sc n) (vis sc) (= (KIND (NODEAT $e sc)) 3))))))))))
@@ -381,6 +389,7 @@ package eval
 //@      (=> (not (inv_Cached_0 f k s)) (and (= $ret0 (DNEVAL)) (= $ret1 ENil) (= (heap inv.Get.n) (old (heap inv.Get.n))))))
 //@   ensures [available-is-Get] (let ((f (fld $ctx VariableFetcher)) (k (fld $n varKey)) (s (p_string (fld $n value))))
 //@      (=> (inv_Cached_0 f k s) (and (= $ret0 (inv_Get_0 f k s)) (= $ret1 (inv_Get_1 f k s)) (= (heap inv.Get.n) (+ (old (heap inv.Get.n)) 1)))))
+//@   ensures [error-identity] (=> (not (= $ret1 ENil)) (= $ret1 (heap last.err)))
 //@   assigns inv.* last.err
 
 //@ macro (ISAND $n) (and (or (= (KIND $n) 3) (= (KIND $n) 4)) (or (= (p_string (fld $n value)) "and") (= (p_string (fld $n value)) "&") (= (p_string (fld $n value)) "&&")))
@@ -397,11 +406,13 @@ package eval
 //@   ensures [otherwise-operator] (=> (and (not (and (ISAND $n) (HAS $params (V_bool false)))) (not (and (ISOR $n) (HAS $params (V_bool true)))) (not (HAS $params (DNEVAL))))
 //@        (and (= (heap dyn.n) (+ (old (heap dyn.n)) 1)) (= (select (heap dyn.fn) (old (heap dyn.n))) (fld $n operator))
 //@             (= $ret0 (dynres_0_Val (fld $n operator) (old (heap dyn.n)))) (= $ret1 (dynres_1_Err (fld $n operator) (old (heap dyn.n))))))
+//@   ensures [error-identity] (=> (not (= $ret1 ENil)) (= $ret1 (heap last.err)))
 //@   assigns dyn.* last.err
 
 //@ func getNodeValueProxy C04 C05
 //@   requires [node] (and (not (= $n 0)) (not (= $ctx 0)) (not (= (fld $ctx VariableFetcher) 0)) (=> (not (= (KIND $n) 1)) (is.string (fld $n value))))
 //@   ensures [constant] (=> (= (KIND $n) 1) (and (= $ret0 (fld $n value)) (= $ret1 ENil) (= (heap inv.Get.n) (old (heap inv.Get.n)))))
+//@   ensures [error-identity] (=> (not (= $ret1 ENil)) (= $ret1 (heap last.err)))
 //@   assigns inv.* last.err
 
 //@ func Expr.EvalBool C01 C06
@@ -604,3 +615,44 @@ package eval
 //@   ensures [same-costs] (and (SAMEDOM $ret0 $origin CostsMap) (SAMEVAL $ret0 $origin CostsMap))
 //@   ensures [caller-maps-untouched] (ALLOLDMAPS)
 //@   ensures [stateless-len] (= (len (fld $ret0 StatelessOperators)) (ite (= $origin 0) 0 (old (len (fld $origin StatelessOperators)))))
+
+// ---------------------------------------------------------------------------
+// TryEval under WF + the parent-table facts its climbing loop uses (C04 C05 C06 C07 C09).
+//   dep(k)  depth of node k below the root (a parent is strictly shallower)
+//   ext(k)  index of the last node of the expression whose value node k produces
+//@ macro (MATCH $res $p) (ite (= (PMASK $p) 1) (= $res (V_bool false)) (ite (= (PMASK $p) 2) (= $res (V_bool true)) (= $res (DNEVAL))))
+//@ macro (PARENTAT $e $k) (select (arr (fld $e parentIdx)) (+ (off (fld $e parentIdx)) $k))
+//@ macro (WFT $e) (let ((n (len (fld $e nodes))) (o (off (fld $e parentIdx))))
+//@   (and (WF $e) (= (len (fld $e parentIdx)) n)
+//@     (forall ((j Int)) (! (=> (and (<= o j) (< j (+ o n)))
+//@       (let ((k (- j o)) (q (select (arr (fld $e parentIdx)) j)))
+//@         (and (<= -1 q) (< q n)
+//@           (=> (and (not (= q -1)) (not (= (KIND (NODEAT $e k)) 7)))
+//@             (let ((pq (NODEAT $e q)))
+//@               (and (< (dep q) (dep k)) (>= (ext q) (ext k))
+//@                 (=> (= (KIND pq) 5) (and (vis q) (<= 0 (fld pq scIdx)) (< (fld pq scIdx) n) (= (KIND (NODEAT $e (fld pq scIdx))) 5)))
+//@                 (=> (not (= (KIND pq) 5)) (and (vis q) (or (= (KIND pq) 3) (and (= (KIND pq) 4) (or (= k (+ q 1)) (= k (+ q 2)))))))))))))
+//@      :pattern ((select (arr (fld $e parentIdx)) j))))))
+
+//@ func Expr.TryEval C04 C05 C06 C07 C09
+//@   requires [wf] (WFT $e)
+//@   requires [ctx] (and (not (= $ctx 0)) (not (= (fld $ctx VariableFetcher) 0)))
+//@   ensures [error-identity] (=> (not (= $ret1 ENil)) (= $ret1 (heap last.err)))
+//@   ensures [frame] (forall ((r Int)) (! (=> (< r (old (next))) (= (select (heap E_Value) r) (select (old (heap E_Value)) r))) :pattern ((select (heap E_Value) r))))
+//@   assigns next E_Value sent.* dyn.* last.err inv.*
+//@   loop 1 (i)
+//@     invariant [position] (and (<= 0 $i) (<= $i (len (fld $e nodes))) (=> (< $i (len (fld $e nodes))) (and (vis $i) (= $osTop (- (pre $i) 1)))))
+//@     invariant [stack] (and (fresh $os) (= (off $os) 0) (>= (len $os) (fld $e maxStackSize)) (>= (len $os) 8))
+//@     invariant [no-pending-error] (= $err ENil)
+//@     invariant [frame] (forall ((r Int)) (! (=> (< r (old (next))) (= (select (heap E_Value) r) (select (old (heap E_Value)) r))) :pattern ((select (heap E_Value) r))))
+//@     decreases (- (len (fld $e nodes)) $i)
+//@   loop 2 (i)
+//@     invariant [at-node] (let ((c (idxOf $curt)) (n (len (fld $e nodes))) (K (KIND $curt)))
+//@        (and (<= 0 c) (< c n) (= (NODEAT $e c) $curt) (<= 0 $i) (< $i n) (= $osTop (- (fld $curt osTop) 1))
+//@             (or (= $i c) (= $i (+ c 2)))
+//@             (=> (= $i (+ c 2)) (and (vis c) (= K 4)))
+//@             (=> (and (= $i c) (or (= K 4) (= K 5))) (MATCH $res $curt))
+//@             (=> (and (= $i c) (not (= K 4)) (not (= K 5))) (and (vis c) (<= 1 K) (<= K 3)))
+//@             (>= (ext $i) $i@1) (= $err ENil)))
+//@     invariant [frame] (forall ((r Int)) (! (=> (< r (old (next))) (= (select (heap E_Value) r) (select (old (heap E_Value)) r))) :pattern ((select (heap E_Value) r))))
+//@     decreases (dep $i)
